@@ -18,6 +18,7 @@ import (
 	"sync"
 	"time"
 
+	"github.com/cube2222/octosql/execution"
 	"github.com/cube2222/octosql/octosql"
 
 	"verifharness/cmd/c15/ops"
@@ -386,6 +387,32 @@ func main() {
 		}
 	}
 
+	// deterministic families (every seed): ORDER BY + LIMIT 1..3 with a retraction among the first n rows, equal
+	// duplicates on the boundary (OST with and without pruning, printer); the live printer with a fixed script
+	for _, fc := range ops.FixedLimitCases() {
+		obs := fc.Spec.Run(fc.Script)
+		js := map[string]interface{}{"kind": "in-process", "family": fc.Family, "arity": fc.Arity, "node": fc.Spec.JSON(), "input": lib.EventsJSON(fc.Script), "observed": obs.JSON()}
+		idx := cf.Add(fmt.Sprintf("InProc (%s, %s, %s, %s)", ops.Nat(fc.Arity), fc.Spec.Coq(), lib.CoqEvents(fc.Script), obs.Coq()), js, true)
+		cf.Count("fixed_" + fc.Family)
+		if obs.Panicked != nil {
+			cf.Violation(idx, fmt.Sprintf("%s panicked on a valid changelog: %v", ops.KindNames[fc.Spec.Kind], obs.Panicked), "")
+		}
+	}
+	for _, limit := range []int64{2, 3} {
+		var script []lib.Event
+		for v := int64(1); v <= 6; v++ {
+			script = append(script, lib.Event{Rec: execution.NewRecord([]octosql.Value{octosql.NewInt(7 - v)}, false, time.Time{})})
+		}
+		spec := ops.Spec{Kind: ops.NPrinter, Keys: []ops.Key{{E: ops.Expr{Kind: ops.EVar, I: 0}}}, HasLimit: true, Limit: limit, NoRetr: limit == 2, Live: true}
+		obs := spec.RunOver(&ops.SlowSource{Events: script, Pause: map[int]time.Duration{4: 300 * time.Millisecond}})
+		js := map[string]interface{}{"kind": "in-process", "family": "fixed_live_printer", "arity": 1, "node": spec.JSON(), "input": lib.EventsJSON(script), "observed": obs.JSON(), "frames": obs.Frames}
+		cf.Add(fmt.Sprintf("InProc (%s, %s, %s, %s)", ops.Nat(1), spec.Coq(), lib.CoqEvents(script), obs.Coq()), js, obs.Frames > 1)
+		cf.Count("fixed_live_printer")
+		if obs.Frames > 1 {
+			cf.Count("fixed_live_printer_with_intermediate_frame")
+		}
+	}
+
 	// ---- CLI ----
 	bin, err := buildCLI(f.Out)
 	if err != nil {
@@ -506,6 +533,33 @@ func main() {
 							jobs = append(jobs, &cliJob{family: src.family, noretr: src.noretr, sh: shapeABC, mode: m, placement: p, keys: ks, n: n, file: file, rows: src.rows, query: q})
 						}
 					}
+				}
+			}
+		}
+	}
+	// deterministic: three groups that overtake each other in COUNT(*) (k = 1,2,3,1,2,1), ordered by the count, nested
+	{
+		var gbld strings.Builder
+		var grows [][]octosql.Value
+		for _, k := range []int64{1, 2, 3, 1, 2, 1} {
+			row := []octosql.Value{octosql.NewInt(k), octosql.NewString("x"), octosql.NewInt(0)}
+			grows = append(grows, row)
+			gbld.WriteString(jsonLine(row) + "\n")
+		}
+		if err := os.WriteFile(filepath.Join(f.Out, "gfixed.json"), []byte(gbld.String()), 0o644); err != nil {
+			fmt.Fprintln(os.Stderr, err)
+			os.Exit(2)
+		}
+		ks := []ops.Key{{Desc: false, E: ops.Expr{Kind: ops.EVar, I: 2}}, {Desc: false, E: ops.Expr{Kind: ops.EVar, I: 0}}}
+		for n := 0; n <= K; n++ {
+			for m := range modes {
+				for p := 0; p < 2; p++ {
+					inner := fmt.Sprintf("SELECT a, b, COUNT(*) AS c FROM gfixed.json GROUP BY a, b TRIGGER COUNTING 1%s LIMIT %d", orderBy(ks), n)
+					q := inner
+					if p == 1 {
+						q = "SELECT a, b, c FROM (" + inner + ") t"
+					}
+					jobs = append(jobs, &cliJob{family: "group_counting", noretr: false, sh: shapeABC, mode: m, placement: p, keys: ks, n: n, file: "gfixed.json", rows: groupCounts(grows), query: q})
 				}
 			}
 		}
